@@ -71,6 +71,8 @@ func main() {
 			}
 		}
 	}
+	_ = os.MkdirAll(gen.Prefix+"/lib", 0o755)
+	_ = os.MkdirAll(gen.RootDir+"/sub", 0o755)
 	if err := os.MkdirAll(gen.RootDir, 0o755); err != nil {
 		fmt.Fprintln(os.Stderr, "simrun: cannot create the simulated working directory:", err)
 		os.Exit(2)
@@ -332,13 +334,20 @@ func reportViolation(p props.Property, sc *props.Scenario, v *props.Verdict) (Vi
 	dir := filepath.Join(evidenceDir(), "replays")
 	_ = os.MkdirAll(dir, 0o755)
 	clause := v.Clause
-	deadline := time.Now().Add(90 * time.Second)
+	deadline := time.Now().Add(60 * time.Second)
 	small, attempts := shrink.Minimise(sc, func(c *props.Scenario) bool {
 		if time.Now().After(deadline) {
 			return false
 		}
 		journal(c)
+		t0 := time.Now()
 		r := p.Run(c)
+		if d := time.Since(t0); d > 2*time.Second {
+			// slow scenario (a non-terminating call running into its step budget): minimise briefly
+			if nd := time.Now().Add(10 * d); nd.Before(deadline) {
+				deadline = nd
+			}
+		}
 		return r.Violation && r.Clause == clause
 	}, 4000)
 	fin := p.Run(small)
